@@ -76,7 +76,7 @@ func ResetKnownPathRegexpMapping() {
 //	    slog.RegWithTreatedAsLevel(slog.InfoLevel),
 //	))
 func SetLevelOutputWidth(width int) {
-	if width >= 0 && width <= 5 {
+	if width >= 1 && width <= 5 {
 		levelOutputWidth = width
 	}
 }
